@@ -149,3 +149,5 @@ package crdt
 //@   ensures c.LWWDelta == nil && c.DocCompositeDelta == nil && c.CounterDelta != nil ==> r.CounterDelta != nil && r.CounterDelta.Priority == c.CounterDelta.Priority && r.CounterDelta.Nonce == c.CounterDelta.Nonce && sameslice(r.CounterDelta.Data, c.CounterDelta.Data) && r.CounterDelta.FieldName == c.CounterDelta.FieldName && sameslice(r.CounterDelta.DocID, c.CounterDelta.DocID) && r.CounterDelta.SchemaVersionID == c.CounterDelta.SchemaVersionID
 //@   ensures c.LWWDelta == nil && c.DocCompositeDelta == nil && c.CounterDelta == nil && c.CollectionDelta != nil ==> r.CollectionDelta != nil && r.CollectionDelta.Priority == c.CollectionDelta.Priority && r.CollectionDelta.SchemaVersionID == c.CollectionDelta.SchemaVersionID
 //@   tags C04 C11
+//@ func (DocComposite).deleteWithPrefix -> (err)
+//@   modifies sets, storeFailed, corrupt
